@@ -143,8 +143,9 @@ var kinds = []kind{
 }
 
 const (
-	kindLine    = 0
-	kindUpright = 5
+	kindLine      = 0
+	kindJustified = 2
+	kindUpright   = 5
 )
 
 func (k *kind) face(cf *canvas.Font) *canvas.FontFace {
